@@ -1,6 +1,8 @@
 package main
 
 import (
+	"math/big"
+	"os"
 	"fmt"
 	"go/token"
 	"go/types"
@@ -30,6 +32,7 @@ type dbm struct {
 	idx  map[string]int
 	d    [][]int64
 	done bool
+	raw  []string
 }
 
 func newDBM() *dbm {
@@ -59,7 +62,13 @@ func (m *dbm) node(a string) int {
 
 // add records x - y <= c.
 func (m *dbm) add(x, y string, c int64) {
+	if c >= dbmInf || c <= -dbmInf {
+		return // outside the representable band: dropping a fact is sound
+	}
 	i, j := m.node(x), m.node(y)
+	if os.Getenv("DBMDEBUG") != "" {
+		m.raw = append(m.raw, fmt.Sprintf("%s - %s <= %d", trunc(x, 70), trunc(y, 70), c))
+	}
 	if c < m.d[i][j] {
 		m.d[i][j] = c
 		m.done = false
@@ -80,7 +89,11 @@ func (m *dbm) close() {
 				if m.d[k][j] >= dbmInf {
 					continue
 				}
-				if s := m.d[i][k] + m.d[k][j]; s < m.d[i][j] {
+				s := m.d[i][k] + m.d[k][j]
+				if s < -dbmInf {
+					s = -dbmInf // clamp (weaker, sound); also keeps later sums from overflowing
+				}
+				if s < m.d[i][j] {
 					m.d[i][j] = s
 				}
 			}
@@ -89,10 +102,41 @@ func (m *dbm) close() {
 	m.done = true
 }
 
+// inconsistent: the recorded constraints have no solution (negative cycle).
+func (m *dbm) inconsistent() bool {
+	m.close()
+	for i := range m.d {
+		if m.d[i][i] < 0 {
+			if os.Getenv("DBMDEBUG") != "" {
+				fmt.Println("INCONSISTENT; raw edges:")
+				for _, e := range m.raw {
+					fmt.Println("    ", e)
+				}
+			}
+			return true
+		}
+	}
+	return false
+}
+
 // entails: x - y <= c ?
 func (m *dbm) entails(x, y string, c int64) bool {
 	i, j := m.node(x), m.node(y)
 	m.close()
+	if os.Getenv("DBMDEBUG") != "" {
+		names := make([]string, len(m.d))
+		for k, v := range m.idx {
+			names[v] = k
+		}
+		fmt.Printf("ENTAILS? %s - %s <= %d : have %d\n", trunc(x, 60), trunc(y, 60), c, m.d[i][j])
+		for a := range m.d {
+			for b := range m.d {
+				if a != b && m.d[a][b] < dbmInf {
+					fmt.Printf("     %s - %s <= %d\n", trunc(names[a], 50), trunc(names[b], 50), m.d[a][b])
+				}
+			}
+		}
+	}
 	return m.d[i][j] <= c
 }
 
@@ -109,7 +153,7 @@ func (ff *FuncFacts) linearize(v ssa.Value, depth int) lin {
 		if _, ind := ff.inductionAlias[x]; ind {
 			return lin{ff.Term(v), 0, true}
 		}
-		if x.Op == token.ADD || x.Op == token.SUB {
+		if (x.Op == token.ADD || x.Op == token.SUB) && ff.noWrap(x, depth) {
 			a, b := ff.linearize(x.X, depth+1), ff.linearize(x.Y, depth+1)
 			if a.ok && b.ok {
 				if b.atom == "" {
@@ -146,6 +190,27 @@ func (ff *FuncFacts) linearize(v ssa.Value, depth int) lin {
 		}
 	}
 	return lin{ff.Term(v), 0, true}
+}
+
+// noWrap: the machine result of x (ADD/SUB) equals the mathematical one.  Signed 64-bit
+// arithmetic on lengths and indexes is taken not to wrap (a slice cannot be that long);
+// every other type needs an interval proof.
+func (ff *FuncFacts) noWrap(x *ssa.BinOp, depth int) bool {
+	if b, ok := x.Type().Underlying().(*types.Basic); ok && (b.Kind() == types.Int || b.Kind() == types.Int64) {
+		return true
+	}
+	tr, ok := typeRange(x.Type())
+	if !ok {
+		return false
+	}
+	a, c := ff.rangeOf(x.X, x.Block(), depth+1), ff.rangeOf(x.Y, x.Block(), depth+1)
+	var lo, hi *big.Int
+	if x.Op == token.ADD {
+		lo, hi = new(big.Int).Add(a.Lo, c.Lo), new(big.Int).Add(a.Hi, c.Hi)
+	} else {
+		lo, hi = new(big.Int).Sub(a.Lo, c.Hi), new(big.Int).Sub(a.Hi, c.Lo)
+	}
+	return within(Interval{lo, hi}, tr)
 }
 
 // lenLin: linear form of len(arg): len(X[lo:]) = len(X) - lo ; len(X[lo:hi]) = hi - lo ;
@@ -297,6 +362,11 @@ func (ff *FuncFacts) factsAt(B *ssa.BasicBlock) *dbm {
 		if !isIntegerValue(b.X) {
 			continue
 		}
+		// i/j/k name the induction variable of the loop around the current point; a condition
+		// about the (final) induction value of a loop that B is not part of would alias it
+		if ff.foreignInduction(b.X, B, 0) || ff.foreignInduction(b.Y, B, 0) {
+			continue
+		}
 		addCmp(op, ff.linearize(b.X, 0), ff.linearize(b.Y, 0))
 	}
 	// value-level facts for every integer value of the function that is referenced:
@@ -321,12 +391,15 @@ func (ff *FuncFacts) factsAt(B *ssa.BasicBlock) *dbm {
 					if iv.Hi.IsInt64() && iv.Hi.Cmp(tr.Hi) <= 0 {
 						m.add(l.atom, "", iv.Hi.Int64())
 					}
-					if iv.Lo.IsInt64() {
+					if iv.Lo.IsInt64() && iv.Lo.Int64() > math.MinInt64 {
 						m.add("", l.atom, -iv.Lo.Int64())
 					}
 				}
 			}
-			// contracts
+			// contracts: facts about a call's results hold only where the call has been executed
+			if !blk.Dominates(B) {
+				continue
+			}
 			if ex, ok := v.(*ssa.Extract); ok {
 				if call, ok := ex.Tuple.(*ssa.Call); ok {
 					if rcs, ok := relContracts[calleeName(&call.Call)]; ok && ff.okCallAt(call, B) {
@@ -420,6 +493,65 @@ func (ff *FuncFacts) factsAt(B *ssa.BasicBlock) *dbm {
 	return m
 }
 
+// foreignInduction: v mentions the induction variable of a loop that does not contain B.
+func (ff *FuncFacts) foreignInduction(v ssa.Value, B *ssa.BasicBlock, d int) bool {
+	if d > 6 || v == nil {
+		return false
+	}
+	var phi *ssa.Phi
+	switch x := v.(type) {
+	case *ssa.Phi:
+		// any loop-carried value: its term (i/j/k or fold[...]) does not identify the loop
+		if ff.headerLoop[x.Block()] != nil {
+			phi = x
+		}
+	case *ssa.BinOp:
+		if _, ok := ff.inductionAlias[x]; ok {
+			if p, ok := x.X.(*ssa.Phi); ok {
+				phi = p
+			}
+		}
+	}
+	if phi != nil {
+		lp := ff.headerLoop[phi.Block()]
+		if lp == nil {
+			return true
+		}
+		if lp.Blocks[B] {
+			return false
+		}
+		// a block that leaves the loop from its body (return / break target reached only from
+		// the body) still sees the current iteration's value; a block hanging off the header's
+		// exit edge, or inside another loop, does not
+		inside := false
+		for d := B.Idom(); d != nil; d = d.Idom() {
+			if lp.Blocks[d] {
+				inside = d != lp.Header
+				break
+			}
+		}
+		if inside {
+			for l := ff.innermost[B]; l != nil; l = l.Parent {
+				if !l.Blocks[lp.Header] {
+					inside = false
+				}
+			}
+		}
+		return !inside
+	}
+	if in, ok := v.(ssa.Instruction); ok {
+		if _, isPhi := v.(*ssa.Phi); isPhi {
+			return false
+		}
+		for _, op := range in.Operands(nil) {
+			if op != nil && *op != nil && ff.foreignInduction(*op, B, d+1) {
+				return true
+			}
+		}
+	}
+	return false
+}
+
 // addLenBound: v <= len(arg) — uses the linear form of len(arg).
 func (ff *FuncFacts) addLenBound(m *dbm, v ssa.Value, arg ssa.Value) {
 	lv := ff.linearize(v, 0)
@@ -429,6 +561,7 @@ func (ff *FuncFacts) addLenBound(m *dbm, v ssa.Value, arg ssa.Value) {
 	}
 	if lv.ok {
 		m.add(lv.atom, la.atom, la.c-lv.c)
+		m.add("", lv.atom, lv.c) // every contracted result is a count: 0 <= v
 	}
 	// a conversion of a value bounded by a length (<= MaxInt63) preserves it
 	if refs := v.Referrers(); refs != nil {
@@ -471,6 +604,9 @@ func (ff *FuncFacts) BoundSites() []BoundSite {
 	le := func(m *dbm, a, b lin) bool { // a <= b
 		if !a.ok || !b.ok {
 			return false
+		}
+		if m.inconsistent() {
+			return false // contradictory facts prove nothing here (dead code or analyser error): undecided
 		}
 		if a.atom == b.atom {
 			return a.c <= b.c
